@@ -36,7 +36,9 @@ class _Trace:
         self.pending_sweep = None
         self.lastL = None
         self.lastR = None
-        self.closed = False
+        self.closed = False      # no more environment-level events (mixer_cleanup reached / trace ended)
+        self.ended = False       # 'end' or 'run_end' emitted
+        self.canon = None        # inside DMRGEngine._canonicalize: dict(norm_tol, norm_tol_final)
         self.n_events = 0
 
 
@@ -266,11 +268,67 @@ class Recorder:
 
         def mk_cleanup(orig):
             def mixer_cleanup(engine):
-                if rec.cur is not None and rec.cur.engine is engine:
-                    rec.close()
+                t = rec.cur
+                if t is not None and t.engine is engine and not t.closed:
+                    if isinstance(engine, dmrg.DMRGEngine):
+                        # the environment-level history ends here; the clean-up protocol follows
+                        rec.emit('run_cleanup')
+                        t.closed = True
+                    else:
+                        rec.close()
                 return orig(engine)
             return mixer_cleanup
         self._patch(mc.Sweep, 'mixer_cleanup', mk_cleanup)
+
+        # -- DMRGEngine._canonicalize: norm error classes as the code computes them
+        import numpy as np
+
+        def err_class(t, psi):
+            err = float(np.linalg.norm(psi.norm_test()))
+            c = t.canon
+            return 'small' if err <= c['final'] else ('mid' if err <= c['tol'] else 'big')
+
+        def post(engine):
+            t = rec.cur
+            return t is not None and t.engine is engine and t.closed and not t.ended
+
+        def mk_canon(orig):
+            def _canonicalize(engine, warn=False):
+                if not post(engine) or engine.mixer is not None or engine.options.get('norm_tol', 1.0e-5, 'real') is None:
+                    return orig(engine, warn)
+                t = rec.cur
+                t.canon = dict(tol=engine.options.get('norm_tol', 1.0e-5, 'real'),
+                               final=engine.options.get('norm_tol_final', 1.0e-10, 'real'))
+                it = 0 if engine.finite else int(engine.options.get('norm_tol_iter', 5, int))
+                rec.emit('canon', err=err_class(t, engine.psi), iter=it)
+                try:
+                    r = orig(engine, warn)
+                    rec.emit('run_end', err=err_class(t, engine.psi))
+                    t.ended = True
+                finally:
+                    t.canon = None
+                return r
+            return _canonicalize
+        self._patch(dmrg.DMRGEngine, '_canonicalize', mk_canon)
+
+        def mk_envsweeps(orig):
+            def environment_sweeps(engine, N_sweeps):
+                r = orig(engine, N_sweeps)
+                if post(engine) and rec.cur.canon is not None:
+                    rec.emit('canon_env', err=err_class(rec.cur, engine.psi))
+                return r
+            return environment_sweeps
+        self._patch(mc.Sweep, 'environment_sweeps', mk_envsweeps)
+
+        def mk_canonical_form(orig):
+            def canonical_form(psi, *a, **kw):
+                r = orig(psi, *a, **kw)
+                t = rec.cur
+                if t is not None and t.canon is not None and psi is t.psi and not t.ended:
+                    rec.emit('canon_form')
+                return r
+            return canonical_form
+        self._patch(tmps.MPS, 'canonical_form', mk_canonical_form)
 
         def of(engine):
             t = rec.cur
@@ -363,9 +421,10 @@ class Recorder:
 
     def close(self):
         t = self.cur
-        if t is not None and not t.closed:
+        if t is not None and not t.ended:
             self.emit('end')
             t.closed = True
+            t.ended = True
 
     def ext_call(self, side, i, store):
         """An external caller asks the environment for a part (between two steps)."""
